@@ -1,1 +1,2 @@
 import Hub.Props.C10
+import Hub.Props.C17
